@@ -52,8 +52,10 @@ Mut(c, v) ==
 
 (* options the helper passes to the conflict-retrying update *)
 UwcOwner(a, c) == IF c.h \in {"addfin", "remfin"} THEN loc[a].owner0 ELSE c.owner
-UwcExp(c)   == CASE c.h \in {"addfin", "remfin"} -> "any"
-                 [] c.h \in {"teardown", "tad", "modify"} -> "running"
+(* Teardown marks the resource whatever phase it is in by then: a Teardown that loses the race against another one is a no-op, *)
+(* not a phase conflict (defect 18, repaired in the code)                                                                      *)
+UwcExp(c)   == CASE c.h \in {"addfin", "remfin", "teardown", "tad"} -> "any"
+                 [] c.h = "modify" -> "running"
                  [] OTHER -> c.exp
 
 Locals == [cur |-> Absent, owner0 |-> "", new |-> Absent]
@@ -62,7 +64,9 @@ Res(cls, val, ready) == [cls |-> cls, val |-> val, ready |-> ready]
 (* obligations of a returning call (C04: applied exactly once / no effect; C03: honest readiness, *)
 (* success of TeardownAndDestroy only once the resource is gone)                                   *)
 RetOK(c, r, nwv, eff, gone) ==
-  CASE c.h \in {"uwc", "modify", "addfin", "remfin"} ->
+  (* an error needs its justification: only a call that expects a phase may report a phase conflict *)
+  /\ (r.cls = "phaseconflict" => UwcExp(c) # "any")
+  /\ CASE c.h \in {"uwc", "modify", "addfin", "remfin"} ->
          IF r.cls = "ok" THEN nwv <= 1 /\ Mut(c, r.val) = r.val ELSE nwv = 0
     [] c.h = "teardown" ->
          IF r.cls = "ok" THEN nwv <= 1 /\ (r.ready => eff = {}) ELSE nwv = 0
